@@ -85,6 +85,8 @@ def compare(rep, geo, rng, key, det, work, viafile):
             bad = ("P_block_map", "block names differ: %s vs %s" % (names3[:6], names0[:6]))
         else:
             for b in grid.blocklist:
+                if not (0.0 < b.volume < 1.0e20):      # inactive (atmosphere) blocks: the volume is a setting of the geometry, not in the statement
+                    continue
                 if abs(g3.block[b.name].volume - b.volume) > 4 * tol * max(1.0, abs(b.volume)):
                     bad = ("P_block_map", "block %s volume %r vs %r" % (b.name, g3.block[b.name].volume, b.volume))
                     break
@@ -116,7 +118,7 @@ def run(tier):
             raise tlc.MachineryError("RectGeo violates " + str(r.violated))
         boxes = r.emitted
         rng.shuffle(boxes)
-        boxes = boxes[:(150 if quick else 3000)]
+        boxes = boxes[:(400 if quick else 3000)]
         n = 0
         for e in boxes:
             b = e["box"]
@@ -127,9 +129,14 @@ def run(tier):
                 angle = rng.choice([0.0, 0.0, 30.0, -45.0, 90.0])
                 if n % 5 == 0:
                     origin, angle = [0.0, 0.0, 0.0], 0.0
+                    if n % 10 == 0:     # block centres with a coordinate of exactly zero
+                        origin = [-0.5 * b["dx"][0] * scale, -0.5 * b["dy"][0] * scale, 0.5 * b["dz"][0] * scale]
+                atmvol = rng.choice([None, None, 0.0, 1.0e30]) if atm else None
                 with core.quiet():
                     geo = m.mulgrid().rectangular([x * scale for x in b["dx"]], [x * scale for x in b["dy"]], [x * scale for x in b["dz"]],
                                                   convention=conv, atmos_type=atm, origin=origin)
+                    if atmvol is not None:
+                        geo.atmosphere_volume = atmvol
                     if angle:
                         geo.rotate(angle, np.array(origin[:2]))
                         geo.permeability_angle = -angle
@@ -143,7 +150,7 @@ def run(tier):
                 if viafile:             # keep the coordinates small: a file only carries four digits of them
                     origin, angle = [0.0, 0.0, 0.0], 0.0
                 key = "box%dx%dx%d:atm%d" % (len(b["dx"]), len(b["dy"]), len(b["dz"]), atm)
-                det = {"box": b, "scale": scale, "atmos_type": atm, "convention": conv, "origin": origin, "angle": angle}
+                det = {"box": b, "scale": scale, "atmos_type": atm, "convention": conv, "origin": origin, "angle": angle, "atmosphere_volume": atmvol}
                 rep.case(json.dumps(det, sort_keys=True))
                 compare(rep, geo, rng, key, det, work, viafile=viafile)
                 n += 1
@@ -153,7 +160,7 @@ def run(tier):
             if nx == 1 and ny == 1:
                 ny = 2
             atm, conv = rng.choice([0, 1, 2]), rng.choice([0, 1, 2, 3])
-            if conv == 1 and nx * ny > 99:
+            if conv == 1 and (nx + 1) * (ny + 1) > 99:
                 conv = 0
             with core.quiet():
                 geo = m.mulgrid().rectangular([round(rng.uniform(5, 500), 1) for _ in range(nx)], [round(rng.uniform(5, 500), 1) for _ in range(ny)],
@@ -166,6 +173,8 @@ def run(tier):
                         c.surface = geo.layerlist[0].bottom - rng.uniform(0.0, depth * 0.95)
                         geo.set_column_num_layers(c)
                 geo.snap_columns_to_layers(0.1)
+                if atm and rng.random() < 0.4:
+                    geo.atmosphere_volume = rng.choice([0.0, 1.0e30])
                 geo.setup_block_name_index()
                 geo.setup_block_connection_name_index()
             key = "sloping:atm%d" % atm
@@ -182,7 +191,7 @@ def run(tier):
                 "file); larger boxes (up to 12x12x14) with sloping surfaces")
     rep.leaves = ["positions, layer bottoms, surfaces, volumes compared numerically (1e-7; via a data file to the four digits connection distances carry)"]
     rep.assumptions = ["some column reaches the top of the model (otherwise the top layer's thickness is not in the grid)",
-                       "inactive boundary blocks are not generated"]
+                       "atmosphere blocks with zero, default and 1e30 volume are generated; their volumes are not compared (a setting of the geometry)"]
     rep.exhaustive = False
     return rep.finish()
 
